@@ -620,7 +620,6 @@ func (ex *Exec) postconditions() {
 		var parts []string
 		for _, r := range ex.rets {
 			env := ex.funcEnv(r.st)
-			env.fn = nil
 			env = ex.withParams(env)
 			vars := map[string]Val{}
 			for i, res := range r.results {
